@@ -392,6 +392,15 @@ def run(ctx):
                 else:
                     stiff = False
             ctx.covered("stiff_hessian", stiff)
+            # every third case: a simultaneous fit of two data sets (CombineFCN) with a Gaussian constraint on a floated mass
+            two_sets = i % 3 == 2
+            if two_sets:
+                r0 = card["meta"]["resonances"][0]
+                fmass = [f["mass"] for f in card["meta"]["finals"]]
+                lo_ = sum(fmass[j] for j in r0["slot"])
+                if lo_ + 0.3 < r0["m0"] < card["meta"]["top"]["mass"] - (sum(fmass) - lo_) - 0.05:
+                    card["config"]["particle"][r0["name"]].update({"float": "m", "gauss_constr": {"m": 0.01}})
+            ctx.covered("data_sets", 2 if two_sets else 1)
             with quiet():
                 cfg = cards.load(card)
                 amp = cfg.get_amplitude()
@@ -410,9 +419,15 @@ def run(ctx):
             ctx.count("hesse_too_few_toy_events")
             continue
         with quiet():
-            data = cfg.data.cal_angle([np.ascontiguousarray(p[idx]) for p in ps])
-            phsp = cfg.data.cal_angle([np.ascontiguousarray(p) for p in cards.events(card, 1500, rng, classes=False)])
-            fcn = cfg.get_fcn([[data], [phsp], [None], None], batch=400)
+            if two_sets:
+                h_ = len(idx) // 2
+                datas = [cfg.data.cal_angle([np.ascontiguousarray(p[idx[:h_]]) for p in ps]), cfg.data.cal_angle([np.ascontiguousarray(p[idx[h_:]]) for p in ps])]
+                phsps = [cfg.data.cal_angle([np.ascontiguousarray(p) for p in cards.events(card, 900, rng, classes=False)]) for _ in range(2)]
+            else:
+                datas = [cfg.data.cal_angle([np.ascontiguousarray(p[idx]) for p in ps])]
+                phsps = [cfg.data.cal_angle([np.ascontiguousarray(p) for p in cards.events(card, 1500, rng, classes=False)])]
+            bgs = [None] * len(datas)
+            fcn = cfg.get_fcn([datas, phsps, bgs, None], batch=400)
         tv = list(amp.vm.trainable_vars)
         n = len(tv)
         x0 = np.array([float(amp.vm.variables[k].numpy()) for k in tv])
@@ -438,17 +453,17 @@ def run(ctx):
 
         with quiet():
             e1, inv1 = cal_hesse_error(fcn, {}, save_npy=False)
-            e2 = cfg.get_params_error(data=[data], phsp=[phsp], bg=[None], batch=400, method="hesse")
-            e3 = cfg.get_params_error(data=[data], phsp=[phsp], bg=[None], batch=400)
-            e4 = cfg.get_params_error(data=[data], phsp=[phsp], bg=[None], batch=400, method="3-point")
+            e2 = cfg.get_params_error(data=datas, phsp=phsps, bg=bgs, batch=400, method="hesse")
+            e3 = cfg.get_params_error(data=datas, phsp=phsps, bg=bgs, batch=400)
+            e4 = cfg.get_params_error(data=datas, phsp=phsps, bg=bgs, batch=400, method="3-point")
             # numerically corrected Hessian entries for user-named parameters (diagonal and off-diagonal branches of cal_hesse_correct)
             corr = [tv[int(j_)] for j_ in rng.choice(n, size=min(2, n), replace=False)]
-            e5 = cfg.get_params_error(data=[data], phsp=[phsp], bg=[None], batch=400, method="correct", correct_params=corr)
+            e5 = cfg.get_params_error(data=datas, phsp=phsps, bg=bgs, batch=400, method="correct", correct_params=corr)
         for label, err in (("get_params_error(correct, correct_params)", np.array([e5[k] for k in tv])), ("cal_hesse_error", np.array(e1)), ("get_params_error(hesse)", np.array([e2[k] for k in tv])),
                            ("get_params_error(default)", np.array([e3[k] for k in tv])), ("get_params_error(3-point)", np.array([e4[k] for k in tv]))):
             worst = float(np.max(np.abs(err - ref) / ref))
             ctx.dev("hesse error rel dev", worst, 2e-3)
-            ctx.check("hesse error == sqrt(diag inv H)", worst < 2e-3, lambda: {"method": label, "lib": err, "ref": ref, "card": cards.short(card)}, mechanism="hesse error: " + label)
+            ctx.check("hesse error == sqrt(diag inv H)", worst < 2e-3, lambda: {"method": label, "lib": err, "ref": ref, "card": cards.short(card)}, mechanism="hesse error: " + label + (" [two data sets, Gaussian constraint]" if two_sets and cfg.gauss_constr_dic else ""))
         ctx.case(("hesse", cards.card_digest_key(card)), nontrivial=n >= 3)
         if i < 2:
             ctx.sample({"section": "hesse", "card": cards.short(card), "n_free": n, "ref_errors": ref, "cal_hesse_error": e1})
